@@ -67,6 +67,12 @@ func (c *Ctx) randData() *Val {
 		inner = &Val{Kind: "m", M: map[string]*Val{}}
 	}
 	put("M", inner)
+	// .N: a nested record for recursive templates ({{if .N}}{{template "t" .N}}{{end}}), depth 1 or 2
+	n1 := &Val{Kind: "m", Keys: []string{"N", "X"}, M: map[string]*Val{"N": {Kind: "n"}, "X": c.randLeaf()}}
+	if c.rng.Intn(2) == 0 {
+		n1 = &Val{Kind: "m", Keys: []string{"N", "X"}, M: map[string]*Val{"N": n1, "X": c.randLeaf()}}
+	}
+	put("N", n1)
 	return m
 }
 
